@@ -136,12 +136,14 @@ def render(spec):
     anc = ""
     if spec.get("anc") is not None:
         a = spec["anc"]
+        akeys = ["E", "anc_x"] + (["R"] if "R" in a else [])
+        body = ", ".join(f"{k!r}: float({str(a[k])!r})" for k in akeys)
         anc = ("def compute_ancillaries(idnt):\n"
-               f"    return {{'E': float({str(a['E'])!r}), "
-               f"'anc_x': float({str(a['anc_x'])!r})}}\n\n")
-        attrs["parameter_anc_keys"] = repr(["E", "anc_x"])
-        attrs["parameter_anc_names"] = repr(["anc modulus", "anc x"])
-        attrs["parameter_anc_units"] = repr(["Pa", "m"])
+               f"    return {{{body}}}\n\n")
+        attrs["parameter_anc_keys"] = repr(akeys)
+        attrs["parameter_anc_names"] = repr(
+            ["anc modulus", "anc x", "anc radius"][:len(akeys)])
+        attrs["parameter_anc_units"] = repr(["Pa", "m", "m"][:len(akeys)])
     tail = ""
     deleted = None
     if mut and mut["kind"] == "delete":
@@ -236,6 +238,10 @@ class RegistryEngine:
                     mutant and mutant.get("attr") in ANC_TRIO):
                 spec["anc"] = {"E": rng.choice([1234.5, float("nan"), 50.0]),
                                "anc_x": rng.choice([1e-6, float("nan")])}
+                if rng.random() < 0.5:
+                    # an ancillary that matches a parameter which is fixed
+                    # by default
+                    spec["anc"]["R"] = rng.choice([4e-6, float("nan")])
             if mutant:
                 spec["mutant"] = mutant
             return spec
@@ -262,7 +268,10 @@ class RegistryEngine:
                 ops.append({"op": "register", "spec": gen_spec(mutant),
                             "as": rng.choice(["module", "fitmodel"])})
             elif r < 0.6:
-                ops.append({"op": "deregister", "key": rng.choice(keys)})
+                ops.append({"op": "deregister", "key": rng.choice(keys),
+                            "how": rng.choice(["registered", "old_handle",
+                                               "fresh_wrapper"]),
+                            "which": rng.randrange(4)})
             elif r < 0.9:
                 kind = rng.choice(["valid", "valid", "valid", "missing",
                                    "syntax", "raises", "importerror",
@@ -321,6 +330,7 @@ class RegistryEngine:
         oracle_checks = 0
         n_rej = n_acc = 0
         self.files = {}   # path -> spec currently in that file
+        self.handles = {}  # key -> model objects handed out so far
 
         def viol(rule, site, feats, msg, i):
             return make_violation(self.prop, rule, site, feats, msg, i)
@@ -352,7 +362,17 @@ class RegistryEngine:
                         ret = logic.register_model(obj)
                     elif kind == "deregister":
                         if op["key"] in reg:
-                            logic.deregister_model(reg[op["key"]])
+                            how = op.get("how", "registered")
+                            hs = self.handles.get(op["key"], [])
+                            if how == "old_handle" and hs:
+                                obj = hs[op.get("which", 0) % len(hs)]
+                            elif how == "fresh_wrapper" and op["key"] in ref:
+                                obj = NaniteFitModel(make_module(
+                                    ref[op["key"]]))
+                            else:
+                                obj = reg[op["key"]]
+                            feats["how"] = how
+                            logic.deregister_model(obj)
                         else:
                             fake = types.SimpleNamespace(model_key=op["key"])
                             logic.deregister_model(fake)
@@ -386,12 +406,18 @@ class RegistryEngine:
                     break
                 if exc is None:
                     ref[spec["key"]] = spec
+                    self.handles.setdefault(spec["key"], []).append(ret)
                     n_acc += 1
                 else:
                     n_rej += 1
                     probes["registration rejected"] += 1
             elif kind == "deregister":
-                if op["key"] in ref:
+                if op["key"] in ref and exc is not None and \
+                        feats.get("how", "registered") != "registered":
+                    # a handle that is not the registered instance may be
+                    # refused; what must not happen is a silent no-op
+                    n_rej += 1
+                elif op["key"] in ref:
                     if exc is not None:
                         violation = viol("M1", "deregister-raises", feats,
                                          f"deregistering a registered model "
@@ -466,6 +492,7 @@ class RegistryEngine:
                         if v:
                             violation = v
                             break
+                        self.handles.setdefault(spec["key"], []).append(ret)
                         if op.get("register"):
                             ref[spec["key"]] = spec
                     else:
@@ -614,7 +641,8 @@ class RegistryEngine:
                                   "parameter keys/names/units differ from "
                                   "the module's", i)
         anc_keys = md.get_anc_parm_keys()
-        want = ["max_indent"] + (["E", "anc_x"] if spec.get("anc") else [])
+        want = ["max_indent"] + ((["E", "anc_x"] + (
+            ["R"] if "R" in spec["anc"] else [])) if spec.get("anc") else [])
         if list(anc_keys) != want:
             return make_violation(
                 self.prop, "M4", "ancillary-keys", feats,
@@ -667,7 +695,10 @@ class RegistryEngine:
                 self.prop, "M5", "seed-E", dict(feats, anc=str(anc)),
                 f"initial E is {p['E'].value}, expected {want_E} "
                 f"(ancillaries {anc})", i)
-        for k, dv in (("R", 10e-6), ("nu", .5), ("baseline", 0)):
+        want_R = 10e-6
+        if anc and "R" in anc and anc["R"] == anc["R"]:
+            want_R = anc["R"]
+        for k, dv in (("R", want_R), ("nu", .5), ("baseline", 0)):
             if p[k].value != dv:
                 return make_violation(
                     self.prop, "M5", f"seed-{k}", feats,
